@@ -79,9 +79,12 @@ pub fn c10(o: &Opts) -> i32 {
         for _ in 0..if q { 4 } else { 30 } { sparse.push((gen::ep_rich_sparse(&mut r), 4)); }
         for (p, d) in sparse {
             let want = reference_cum(&p, d);
-            for (mode, pool) in [("fresh", 4usize), ("used", 2), ("fresh", 8)] {
+            // (a brand-new generator costs far more than a shallow count: the shallow targets get one, the deep ones two)
+            let modes: &[(&str, usize)] = if d <= 2 { &[("fresh", 4usize), ("used", 2)] } else { &[("fresh", 4usize), ("used", 2), ("fresh", 8)] };
+            for &(mode, pool) in modes {
                 let got = if mode == "fresh" { engine_count(&mut MoveGenerator::new(), &p, d, pool) } else { engine_count(&mut used, &p, d, pool) };
                 evaluations += 1; ctx.count("sparse_positions_to_depth_5", 1);
+                ctx.count(&format!("counts_with_{}_generator", mode), 1);
                 ctx.distinct(p.key_hash() ^ 5 << 60 ^ (pool as u64) << 50);
                 match got {
                     Ok(n) if n == want => {}
